@@ -294,6 +294,30 @@ def r_feeder(e, R):
         R.check(not inside, "R-FEEDER", f"{f.short}: the silent `except IndexError` (empty buffer) covers the pop only, not the serialisation / send", f.short,
                 "try: <pop> ... except IndexError: <no report>", "an IndexError raised while pickling a task's arguments (user __reduce__) is swallowed as 'buffer empty': the task "
                 "is dropped silently and its future never resolves", e.loc(f, tr_))
+    # the silent `return` on EPIPE means "the pipe to the workers is gone": it may be taken for an error of the *send* only.  The
+    # serialisation runs user code (__reduce__) that can raise an OSError with errno EPIPE of its own (an object talking to a closed
+    # socket): that must take the error path, not end the feeder thread.
+    g0 = e.cfg(f)
+    dump_nodes = [n for n in g0.nodes for c in calls_in(n) if e.callees_of(c) & {"loky.backend.reduction:dumps"}]
+    class _T:      # (the CFG splits a short-circuit test into one node per operand: look at the whole test of the if statement)
+        def __init__(self, x):
+            self.ast = x
+    for t_ in [_T(x.test) for x in func_nodes(f) if isinstance(x, ast.If) and "EPIPE" in norm(x.test)
+               and any(isinstance(s_, ast.Return) for s_ in x.body)]:
+        h_ = _innermost_handler(e, t_.ast, f)
+        covers_dumps = h_ is not None and any(any(m.ast is h_ for m, l in d.succ if l == "exc" and m.kind == "except") for d in dump_nodes)
+        # ... unless the test also requires a flag that is False while serialising and True while sending
+        flagged = False
+        for nm in [x for x in ast.walk(t_.ast) if isinstance(x, ast.Name) and x.id in f.locals]:
+            defs_all = e.local_defs(f, nm.id)
+            if defs_all and all(isinstance(d, ast.Constant) and isinstance(d.value, bool) for d in defs_all):
+                at_dump = [d for dn in dump_nodes for d in e.reaching_defs(f, nm.id, dn)]
+                if at_dump and all(isinstance(d, ast.Constant) and d.value is False for d in at_dump):
+                    flagged = True
+        R.check((not covers_dumps) or flagged, "R-FEEDER", f"{f.short}: the silent EPIPE return is taken for errors of the send only, not of the serialisation", f.short,
+                "EPIPE return covers dumps()", "the handler that returns silently on errno == EPIPE also covers dumps(obj): a task argument whose __reduce__ raises "
+                "BrokenPipeError ends the feeder thread without a trace: that future and every later one never resolve and the executor is not flagged broken",
+                e.loc(f, t_.ast))
     # on this platform (write lock present) no send happens without the lock
     for pn in popn:
         bare = SC.Facts(posix, [is_sentinel(False)]).find(g, pn, lambda n: n in sends, avoid=lambda n: n in acq or n in heads, use_exc=False)
